@@ -106,7 +106,7 @@ def spec_C07(prop, tier, seed, t0):
     jobs += lock_jobs(rng, CLASSES, profs, n)
     if tier != "quick":
         jobs += seq_jobs(rng, CLASSES, 20, programs=300, flavor="asan")
-    return _mk(prop, tier, seed, t0, jobs, {"guard_ownership_checks": 100000, "programs": 5000, "op_MoveCtor": 3000,
+    return _mk(prop, tier, seed, t0, jobs, {"guard_ownership_checks": 100000, "programs": 4000, "op_MoveCtor": 3000,
                                            "op_MoveAssign": 2000, "op_Upgrade": 1000, "op_Downgrade": 1000},
                rule=LOCK_RULE + SEQ_RULE)
 
@@ -274,7 +274,7 @@ def spec_C19(prop, tier, seed, t0):
             "second pass, copies, moved generators and of 2-6 threads sharing one const generator are compared "
             "element-wise with the reference sequence; constructors with max < min must throw; the TSan build "
             "reports any data race on the shared generator; distinct = (class, type, n class, thread count)")
-    return _mk(prop, tier, seed, t0, jobs, {"sequences_compared": 2000, "rejections_checked": 100,
+    return _mk(prop, tier, seed, t0, jobs, {"sequences_compared": 1500, "rejections_checked": 100,
                                            "distinct_nontrivial": 30}, rule=rule, assumptions=ZIPF_ASSUME)
 
 
@@ -330,7 +330,7 @@ def spec_C14(prop, tier, seed, t0):
 def spec_C15(prop, tier, seed, t0):
     return _id_check(prop, tier, seed, t0, [1, 2, 3, 8],
                      {"id_reuses_checked": 5000, "chaos_overlaps:43+44": 300,
-                      "heartbeat_alive_checks_on_running_threads": 100})
+                      "heartbeat_alive_checks_on_running_threads": 40})
 
 
 EPOCH_RULE = ("one evaluation = one ForwardGlobalEpoch, one guard or one list returned by GetProtectedEpochs in a run "
@@ -349,19 +349,19 @@ def _epoch_extra(subs):
 
 def spec_C04(prop, tier, seed, t0):
     caps = [2, 3, 8] if tier == "quick" else [2, 3, 5, 8, 16, 64]
-    runs, scale = (8, 1) if tier == "quick" else (60, 8)
+    runs, scale = (12, 1) if tier == "quick" else (60, 8)
     jobs = thr_jobs("epoch", caps, seed, runs, scale, extra=_epoch_extra(["A"]))
     return _mk(prop, tier, seed, t0, jobs, {"guard_forward_pairs_checked": 50000, "guard_forward_pairs_on_reused_id": 5000,
-                                           "thread_replacements": 200, "chaos_overlaps:43+44": 20},
+                                           "thread_replacements": 60, "chaos_overlaps:43+44": 20},
                rule=EPOCH_RULE, assumptions=THR_ASSUME)
 
 
 def spec_C16(prop, tier, seed, t0):
     caps = QUICK_CAPS if tier == "quick" else THOROUGH_CAPS
-    runs, scale = (6, 1) if tier == "quick" else (40, 8)
+    runs, scale = (8, 1) if tier == "quick" else (40, 8)
     jobs = thr_jobs("epoch", caps, seed, runs, scale, extra=_epoch_extra(["A"]))
     jobs += thr_jobs("model", caps, seed + 1, 2 if tier == "quick" else 10, 2 if tier == "quick" else 10)
-    return _mk(prop, tier, seed, t0, jobs, {"forwards": 300000, "quiescent_checks": 50, "monotonic_read_checks": 10000},
+    return _mk(prop, tier, seed, t0, jobs, {"forwards": 200000, "quiescent_checks": 50, "monotonic_read_checks": 4000},
                rule=EPOCH_RULE, assumptions=THR_ASSUME)
 
 
